@@ -207,3 +207,83 @@ def engine_seq(ctx, harness, eng, replay, pr):
             rc, out = _run([harness, 'seq', '-print', '-seed', m.group(2), '-profile', m.group(1), '-from', m.group(3), '-n', '1'])
             return [l for l in out.decode().splitlines() if not l.startswith('# script')]
         handle(fails, get_script, f'generated profile={p}')
+
+
+# ---------------------------------------------------------------- UNIT engines (component models)
+
+def engine_unit(ctx, harness, eng, replay, pr):
+    """white-box differential of one component against its Lean model: harness `unit-<name>` | otterdrv <name>"""
+    name = eng['name']
+    pid = ctx.pid
+    info = ctx.cov['engines'].setdefault('unit-' + name, {'scripts': 0, 'lines': 0, 'failed': 0})
+    if not pr.get('otterdrv'):
+        raise RuntimeError('otterdrv (component models) does not build: ' + pr.get('otterdrv_err', ''))
+
+    def judge(tr):
+        rc, out = _run([OTTERDRV, name] + eng.get('drv_args', []), inp=tr, timeout=3000)
+        fails, summ = [], {}
+        for l in out.decode('utf-8', 'replace').splitlines():
+            if l.startswith('FAIL '):
+                m = re.match(r'FAIL script=(\S+) line=(\d+) :: (.*?) :: (.*)$', l)
+                fails.append({'script': m.group(1) if m else '?', 'line': int(m.group(2)) if m else 0,
+                              'msg': m.group(3) if m else l, 'at': m.group(4) if m else '', 'engine': 'unit-' + name,
+                              'class': 'unit'})
+            elif l.startswith('summary '):
+                summ = dict(kv.split('=') for kv in l.split()[1:] if '=' in kv)
+        if rc != 0 or not summ:
+            raise RuntimeError(f'otterdrv {name} failed: ' + out.decode('utf-8', 'replace')[-400:])
+        return fails, summ
+
+    def record(fails, tr, origin):
+        for f in fails:
+            if eng.get('accept') and not eng['accept'](f):
+                continue
+            if len([v for v in ctx.violations if v.get('engine') == f['engine']]) >= 3:
+                break
+            # cut the failing script's transcript out of the stream: it is self-contained (hashes are reported in it)
+            blocks = tr.decode('utf-8', 'replace').split('script ')
+            blk = next((b for b in blocks if b.startswith(f['script'] + '\n')), '')
+            lines = blk.split('\n')[: f['line'] + 2]
+            path = f"{V}/out/{pid}.unit-{name}.{re.sub('[^A-Za-z0-9_.-]', '_', f['script'])}.replay"
+            with open(path, 'w') as fh:
+                fh.write(f'# replay for property {pid}, engine unit-{name}, origin {origin}\n# failure: {f["msg"]}\n')
+                fh.write(f'# judge again with: {OTTERDRV} {name} < <this file from the line "script ..." on>\n')
+                fh.write('script ' + '\n'.join(lines) + '\n')
+            v = dict(f)
+            v['replay'] = path
+            ctx.violations.append(v)
+
+    if replay:
+        txt = open(replay).read()
+        tr = txt[txt.index('script '):].encode()
+        fails, summ = judge(tr)
+        ctx.cov['evaluations'] += 1
+        record(fails, tr, 'replay')
+        return
+    n_total = eng[ctx.tier]
+    chunk = eng.get('chunk', 10)
+    jobs = [(s, min(chunk, n_total - s)) for s in range(0, n_total, chunk)]
+
+    def job(j):
+        start, n = j
+        rc, tr = _run([harness, 'unit-' + name, '-seed', str(ctx.seed), '-from', str(start), '-n', str(n)] + eng.get('args', []), timeout=3000)
+        if rc != 0:
+            raise RuntimeError(f'harness unit-{name} crashed: ' + tr.decode('utf-8', 'replace')[-600:])
+        fails, summ = judge(tr)
+        return tr, fails, summ
+    with concurrent.futures.ThreadPoolExecutor(max_workers=14) as ex:
+        results = list(ex.map(job, jobs))
+    for tr, fails, summ in results:
+        info['scripts'] += int(summ.get('scripts', 0))
+        info['lines'] += int(summ.get('lines', 0))
+        info['failed'] += int(summ.get('failed', 0))
+        for k, v in summ.items():
+            if k not in ('scripts', 'lines', 'failed'):
+                info[k] = info.get(k, 0) + int(v)
+        ctx.cov['evaluations'] += int(summ.get('scripts', 0))
+        for block in tr.split(b'script ')[1:]:
+            if block.count(b'\n') >= 10:
+                ctx.distinct.add(hashlib.sha1(block).hexdigest())
+        if not any(s.get('engine') == 'unit-' + name for s in ctx.cov['samples']) and tr:
+            ctx.cov['samples'].append({'engine': 'unit-' + name, 'transcript_head': tr.decode('utf-8', 'replace').splitlines()[:10]})
+        record(fails, tr, 'generated')
